@@ -212,10 +212,13 @@ def splice_and_verify(canary=False):
         idx = index_spec_fns(spec_dir)
         for f in sorted(glob.glob(os.path.join(spec_dir, "*.rs"))):
             lines = open(f).read().split("\n")
-            ends = sorted([fi["out_end"] for fi in idx if fi["file"] == os.path.basename(f) and fi["fn"].split("::")[1].startswith("compose_")], reverse=True)
-            for e in ends:
-                if lines[e - 1].strip() == "}":
-                    lines[e - 1] = "    assert(false); /*CANARY*/ }"
+            rng = sorted([(fi["out_start"], fi["out_end"]) for fi in idx if fi["file"] == os.path.basename(f) and fi["fn"].split("::")[1].startswith("compose_")], reverse=True)
+            for st, e in rng:
+                k = e
+                while k > st and lines[k - 1] != "}":   # the function's closing brace is a "}" in column 0
+                    k -= 1
+                if k > st:
+                    lines[k - 1] = "    assert(false); /*CANARY*/ }"
             open(f, "w").write("\n".join(lines))
     cmd = [SPLICE, "--src", os.path.join(REPO, "src"), "--out", src, "--meta", meta, "--vc", os.path.join(VERIF, "contracts"), "--vc", gen,
            "--spec", spec_dir, "--extra-mod", "verif_pec"]
@@ -652,7 +655,7 @@ def decide(pid, tier, seed):
         if cres.get("tool_error") or cres["compile_errors"]:
             raise ToolProblem("canary run failed: %s" % (cres.get("tool_error") or cres["compile_errors"][0]["message"]))
         can_failed = set(my_fn_norm(ob["fn"]) for ob in cres["failed"] if ob.get("label") == "CANARY")
-        can_failed |= set(my_fn_norm(ob["fn"] or "") for ob in cres["failed"] if ob["kind"] == "assert" and "CANARY" in (ob.get("src_text") or ""))
+        can_failed |= set(my_fn_norm(ob["fn"] or "") for ob in cres["failed"] if ob["kind"] == "assert" and ("CANARY" in (ob.get("src_text") or "") or "canary" in str(ob.get("where") or "") or ob.get("origin") == "vc"))
         can_failed |= set(my_fn_norm(r["fn"] or "") for r in cres["rlimit"])
         expect = [cf for cf in cone_fns if contracts.get(cf, {}).get("attrs") == [] and any(fi["fn"] == cf and fi["has_body"] for fi in res["fnindex"])]
         for l in lemma_fns:
@@ -660,9 +663,9 @@ def decide(pid, tier, seed):
                 if fi.get("spec_lib") and fi["fn"].split("::")[1].startswith("compose_") and _fn_listed(fi["fn"], [l]) and fi["fn"] not in expect:
                     expect.append(fi["fn"])
         vac = [cf for cf in expect if my_fn_norm(cf) not in can_failed]
-        canary_info = {"functions_with_ensures_false": len(expect), "failed_as_required": len(expect) - len(vac), "vacuous": vac}
+        canary_info = {"functions_with_canary_assert_false": len(expect), "failed_as_required": len(expect) - len(vac), "vacuous": vac}
         if vac:
-            raise ToolProblem("vacuity canary: `ensures false` verifies for %s (contradictory precondition or inconsistent assumption)" % ", ".join(vac))
+            raise ToolProblem("vacuity canary: `assert(false)` verifies in %s (contradictory precondition or inconsistent assumption)" % ", ".join(vac))
 
     for ob in failed:
         violations.append({"kind": "verus", "obligation": ob_name(ob), "message": ob["message"], "where": ob.get("where"), "detail": ob.get("detail"), "src": ob.get("src_text")})
